@@ -9,7 +9,9 @@
               (4 ev) insert(Event) | (5 (ev..)) insert(list) | (6 id) delete | (7 ev) replace_last
               (8 id ev) replace
      op, meta, out, view : as in ExC02.v
-     result : ((res cache listing view1 view2 ...) ...)   cache = ((b serial) ...)
+     result : ((res cache listing nrows view1 view2 ...) ...)   cache = ((b serial) ...)
+              nrows = number of event rows the state holds (for the SQL back ends: rows of the events table,
+              whether or not a listed bucket owns them)
               listing = the res of storage.buckets() on the state after the call
      res    : (0 dsout) | (1 errcode) | (2)       dsout = (0 out) | (1 serial b) *)
 From AwVerif Require Import Base.Prelude Base.Sexp Model.StoreBase Model.MemStore
@@ -121,7 +123,8 @@ Definition view_s (v : option (meta * list event)) : sexp :=
 Definition cache_s (l : list (Z * Z)) : sexp := L (map (fun kv => L [A (fst kv); A (snd kv)]) l).
 
 Section Run.
-  Context {S : Type} (step : S -> op -> S * res out) (view : S -> Z -> option (meta * list event)).
+  Context {S : Type} (step : S -> op -> S * res out) (view : S -> Z -> option (meta * list event))
+          (nrows : S -> Z).
   Fixpoint run_hist (d : dstate S) (univ : list Z) (ops : list dsop) : list sexp :=
     match ops with
     | [] => []
@@ -129,19 +132,24 @@ Section Run.
         let '(d', r) := ds_step step d o in
         L (res_s dsout_s r :: cache_s (ds_cache d')
              :: res_s out_s (snd (step (ds_store d') Buckets))      (* what ds.buckets() would list now *)
+             :: A (nrows (ds_store d'))                             (* event rows held, listed bucket or not *)
              :: map (fun b => view_s (view (ds_store d') b)) univ)
           :: run_hist d' univ t
     end.
 End Run.
+
+Definition mem_nrows (c : mstate) : Z := Z.of_nat (length (concat (map (fun kv => snd (snd kv)) c))).
+Definition sq_nrows (c : sqstate) : Z := Z.of_nat (length (sq_events c)).
+Definition pw_nrows (c : pwstate) : Z := Z.of_nat (length (pw_events c)).
 
 Definition driver_entry (s : sexp) : sexp :=
   match s with
   | L [A backend; univ; L ops] =>
       match sZs univ, opt_all (map sDsop ops) with
       | Some univ, Some ops =>
-          if backend =? 0 then L (run_hist mem_step mem_view (ds_init mem_init) univ ops)
-          else if backend =? 1 then L (run_hist sq_step sq_view (ds_init sq_init) univ ops)
-          else if backend =? 2 then L (run_hist pw_step pw_view (ds_init pw_init) univ ops)
+          if backend =? 0 then L (run_hist mem_step mem_view mem_nrows (ds_init mem_init) univ ops)
+          else if backend =? 1 then L (run_hist sq_step sq_view sq_nrows (ds_init sq_init) univ ops)
+          else if backend =? 2 then L (run_hist pw_step pw_view pw_nrows (ds_init pw_init) univ ops)
           else bad_case
       | _, _ => bad_case
       end
